@@ -95,7 +95,12 @@ class Pair(object):
             kw["serverName"] = sc["sni"]
         if fl in ("cert", "psk"):
             chain = key = None
-            if sc.get("ckey"):
+            if sc.get("ckey") == "empty":
+                # a client that can do (post-handshake) client authentication
+                # but has no certificate to show
+                from tlslite.api import X509CertChain
+                chain, key = X509CertChain(), creds.load("client", "rsa")[1]
+            elif sc.get("ckey"):
                 chain, key = creds.load("client", sc["ckey"])
             if sc.get("alpn_c") is not None:
                 kw["alpn"] = [bytearray(a.encode()) for a in sc["alpn_c"]]
